@@ -22,8 +22,47 @@ def fnspec(k):
     return k if k in ("ramp", "sine", "waituntil") else user_fn_spec(k)
 
 
+def sibling_case(g):
+    """several segments sharing ONE base name but having DIFFERENT functions; name-addressed edits of a
+    numbered sibling before and after the numbering shifts (remove / insert in front)"""
+    r = g.r
+    ops = [{"op": "bp.new", "id": "b0"}]
+    fns = [r.choice(["ramp", "sine", "const", "lin2", "poly4", "x9y"]) for _ in range(r.randint(3, 5))]
+    for f in fns:
+        ops.append({"op": "bp.insert", "id": "b0", "pos": -1, "fn": fnspec(f), "args": [enc(g.fnum()) for _ in PARAMS[f]],
+                    "dur": enc(r.choice([1, 0.5, 2])), "name": enc("a")})
+    names = canonical_names(["a"] * len(fns))
+    cur = list(zip(names, fns))
+    ops.append({"op": "bp.desc", "id": "b0"})
+    for _ in range(r.randint(4, 9)):
+        k = r.random()
+        if k < 0.55 and cur:
+            nm, f = r.choice(cur)
+            ps = PARAMS[f]
+            arg = r.choice(ps) if r.random() < 0.7 else r.randint(0, len(ps) - 1)
+            if r.random() < 0.15:
+                arg = r.choice(["stop", "sigma", "level", "nosuch"])
+            ops.append({"op": "bp.changeArg", "id": "b0", "name": nm, "arg": enc(arg), "value": enc(g.fnum()), "all": r.random() < 0.15})
+        elif k < 0.8 and len(cur) > 1:
+            i = r.randrange(len(cur) - 1)          # an earlier sibling: the later ones are renumbered
+            ops.append({"op": "bp.remove", "id": "b0", "name": cur[i][0]})
+            fl = [f for _, f in cur]
+            del fl[i]
+            cur = list(zip(canonical_names(["a"] * len(fl)), fl))
+        else:
+            f = r.choice(["ramp", "sine", "const", "lin2"])
+            ops.append({"op": "bp.insert", "id": "b0", "pos": 0, "fn": fnspec(f), "args": [enc(g.fnum()) for _ in PARAMS[f]],
+                        "dur": enc(1), "name": enc("a")})
+            fl = [f] + [x for _, x in cur]
+            cur = list(zip(canonical_names(["a"] * len(fl)), fl))
+        ops.append({"op": "bp.desc", "id": "b0"})
+    return ops
+
+
 def case(g, tier, ci):
     r = g.r
+    if r.random() < 0.15:
+        return sibling_case(g)
     ops = []
     pool = ["b0"]
     names = {"b0": []}   # the generator's own idea of current names, used only to aim edits
